@@ -226,7 +226,7 @@ def replay_stage(doc, variant, tmp, env, quiet):
 def replay_rest(doc, p, quiet):
     if doc.get("crash_kind"):
         kind = FATAL_KIND.get(p.returncode, "signal" if p.returncode < 0 else "exit_%d" % p.returncode)
-        ok = (kind == doc["crash_kind"]) and (not doc.get("crash_sig") or doc["crash_sig"] in (p.stderr + p.stdout))
+        ok = (kind == doc["crash_kind"]) and (not doc.get("crash_sig") or doc["crash_sig"].lower() in (p.stderr + p.stdout).lower())   # ("@@FATAL TERMINATE" is upper case)
         if not quiet:
             log("replay: exit=%d kind=%s expected=%s %s" % (p.returncode, kind, doc["crash_kind"], "REPRODUCED" if ok else "not reproduced"))
             log(p.stderr[-2500:])
@@ -406,7 +406,7 @@ def tsan_reports(text):
 
 
 def stage_tsan(prop, st, tier, seed0, known):
-    n = st["n"][tier]; viol = []; cov = {"tsan_runs": 0, "tsan_reports": 0, "tsan_note": "free-running mode: real concurrency under pthread primitives, observational (a reported race is re-searched in up to 5 fresh runs of the seed)"}
+    n = st["n"][tier]; viol = []; cov = {"tsan_runs": 0, "tsan_serialised_runs": 0, "tsan_free_running_runs": 0, "tsan_reports": 0, "tsan_note": "serialised runs: the seeded scheduler decides every switch and hands over through a futex word ThreadSanitizer does not model, OpenMP's own synchronisation (fork, join, critical, atomic, locks) is annotated, so TSan's vector clocks judge the serialised schedule as if the members were concurrent and a report replays from its seed; free-running runs: real concurrency under pthread primitives, observational (a report is searched again in up to 5 fresh runs of the seed)"}
     items = []
     for jd in st["jobs"]:
         base = seed0 * 1000003 + 9000000
@@ -417,23 +417,23 @@ def stage_tsan(prop, st, tier, seed0, known):
         return jd, seed, r, c, "\n".join(e[2] for e in errs)
     seen = {}
     for jd, seed, r, c, text in parallel_map(one, items, max(2, NPROC // 4)):
-        cov["tsan_runs"] += 1
+        cov["tsan_runs"] += 1; cov["tsan_serialised_runs" if "free_running=0" in jd.get("args", []) else "tsan_free_running_runs"] += 1
         for kind, frames, blk in tsan_reports(text):
             cov["tsan_reports"] += 1
             sig = "%s|%s|%s" % (kind, frames[0], frames[1])
             if sig not in seen:
                 seen[sig] = (jd, seed, blk)
     for sig, (jd, seed, blk) in seen.items():
-        viol.append(("tsan." + sig.split("|")[0].replace(" ", "_"), "ThreadSanitizer (free-running team) on %s seed %d: %s" % (jd["workload"], seed, sig),
-                     {"seed": seed, "workload": jd["workload"], "_variant": jd["variant"], "focus": jd.get("focus", ""), "tsan_sig": sig, "report": blk}))
+        viol.append(("tsan." + sig.split("|")[0].replace(" ", "_"), "ThreadSanitizer (%s) on %s seed %d: %s" % ("serialised seeded schedule" if "free_running=0" in jd.get("args", []) else "free-running team", jd["workload"], seed, sig),
+                     {"seed": seed, "workload": jd["workload"], "_variant": jd["variant"], "focus": jd.get("focus", ""), "_args": jd.get("args", []), "tsan_sig": sig, "report": blk}))
     return viol, cov
 
 
 STAGES = {"poison": stage_poison, "valgrind": stage_valgrind, "tsan": stage_tsan}
 
 
-def plan_text_for(variant, workload, tier, seed, focus):
-    cmd = [simrun_path(variant), "--workload", workload, "--tier", tier, "--seeds", "%d:%d" % (seed, seed), "--print-plan"] + (["--focus", focus] if focus else [])
+def plan_text_for(variant, workload, tier, seed, focus, args=()):
+    cmd = [simrun_path(variant), "--workload", workload, "--tier", tier, "--seeds", "%d:%d" % (seed, seed), "--print-plan"] + (["--focus", focus] if focus else []) + list(args)
     return subprocess.run(cmd, stdout=subprocess.PIPE, stderr=subprocess.PIPE, text=True).stdout
 
 
@@ -561,7 +561,7 @@ def run_property(prop, spec, tier, seed0):
             if (clause, info.get("tsan_sig", "")) in done_cl and st["type"] != "tsan":
                 continue
             done_cl.add((clause, info.get("tsan_sig", "")))
-            plan = plan_text_for(info["_variant"], info["workload"], tier, info["seed"], info.get("focus", ""))
+            plan = plan_text_for(info["_variant"], info["workload"], tier, info["seed"], info.get("focus", ""), info.get("_args", ()))
             extra = {k2: info[k2] for k2 in ("differential", "valgrind", "tsan_sig", "report") if k2 in info}
             path = write_replay(prop, {"seed": info["seed"], "workload": info["workload"], "_variant": info["_variant"]}, {"clause": clause, "detail": detail}, plan, extra)
             ok, msg = replay_file(path, quiet=True)
